@@ -774,3 +774,63 @@ def rule_CMP(FA):
                 else:
                     out.append(Inst('R-CMP', key, 'ok', ops[0][1], 'compared %d times, always `%s`' % (len(ops), ops[0][0]), props))
     return out
+
+
+# ---------------------------------------------------------------- R-SELP
+
+SELP_BASES = {'quadwt::QWaveletTree': ['C01', 'C04'], 'quadwt::huffqwt::HuffQWaveletTree': ['C02', 'C04'], 'binwt::WaveletTree': ['C03', 'C04']}
+LEVEL_QUERIES = ('rank', 'rank0', 'rank1', 'select', 'select0', 'select1')
+
+
+def rule_SELP(FA):
+    """`select` of the wavelet trees walks the levels with CHECKED per-level queries and propagates every `None`
+    with `?`: an occurrence that exists at a symbol's leaf level need not exist at an ancestor level of the
+    level-wise matrix, so an overshoot must stay an overshoot.  No `*_unchecked` rank/select, no unwrap of a
+    per-level answer."""
+    out = []
+    for base, props in SELP_BASES.items():
+        cands = [f for f in FA.by_base_name.get((base, 'select'), []) if f['impl_trait'].endswith('SelectUnsigned')]
+        if not cands:
+            out.append(Inst('R-SELP', 'R-SELP|%s::select' % base, 'violation', '', 'select not found (anchor lost)', props))
+            continue
+        f = cands[0]
+        for spec in FA.specs(f):
+            F = FA.fn(f, spec)
+            bad = []
+            n_checked = 0
+            for bi, t in F.calls():
+                fn = t['f']['fn']
+                nm = fn['name']
+                if nm.endswith('_unchecked') and nm[:-len('_unchecked')] in LEVEL_QUERIES and fn['unsafe']:
+                    bad.append((t['line'], 'calls `%s` on a level structure' % short_callee(fn)))
+                if nm in LEVEL_QUERIES and fn['trait'] and fn['trait'].split('::')[-1] in ('RankQuad', 'SelectQuad', 'RankBin', 'SelectBin') and not t['dest']['proj']:
+                    n_checked += 1
+                    # the answer must only flow into `?` (Try::branch), never into unwrap/expect/unwrap_or
+                    dl = t['dest']['l']
+                    users = []
+                    for bj, t2 in F.calls():
+                        for a in t2['args']:
+                            if 'p' in a and a['p']['l'] == dl:
+                                users.append(t2['f']['fn']['name'])
+                    # results may be merged through a local first (if bit { rank1 } else { rank0 })
+                    for b2 in F.blocks:
+                        for s2 in b2['s']:
+                            rv = s2.get('rv')
+                            if rv and rv['k'] == 'use' and 'p' in rv['a'] and rv['a']['p']['l'] == dl and not s2['lhs']['proj']:
+                                ml = s2['lhs']['l']
+                                for bj, t2 in F.calls():
+                                    for a in t2['args']:
+                                        if 'p' in a and a['p']['l'] == ml:
+                                            users.append(t2['f']['fn']['name'])
+                    if any(u in ('unwrap', 'expect', 'unwrap_or', 'unwrap_or_default', 'unwrap_unchecked', 'unwrap_or_else') for u in users):
+                        bad.append((t['line'], 'unwraps the answer of the per-level `%s`' % nm))
+                    elif 'branch' not in users:
+                        bad.append((t['line'], 'does not propagate a None of the per-level `%s` with `?`' % nm))
+            key = 'R-SELP|%s::select%s' % (base, spec_key(spec))
+            if bad:
+                out.append(Inst('R-SELP', key, 'violation', bad[0][0], 'select %s: a missing occurrence no longer stays a None up to the root' % '; '.join(sorted({b for _, b in bad})), props))
+            elif n_checked < 2:
+                out.append(Inst('R-SELP', key, 'violation', f['span'], 'expected checked per-level rank and select calls, found %d (anchor lost)' % n_checked, props))
+            else:
+                out.append(Inst('R-SELP', key, 'ok', f['span'], '%d per-level queries, all checked and propagated with `?`' % n_checked, props))
+    return out
